@@ -76,7 +76,7 @@ def plant(rng, arch, b):
         return kind, "A", [p], trailer
     if kind == "undef":
         d = rng.choice(["@db ", "@dw "])
-        pre = rng.choice(["", "1 + ", "( ", "< "])
+        pre = rng.choice(["", "1 + ", "( ", "< ", "@sizeof ", "2 * @sizeof "])
         if d == "@dw ":
             ops = "7, " if '"' in ops else ops
         b.text += ind + d + ops
